@@ -269,29 +269,6 @@ example : (match exState with
 def DrainedIfEmpty (o : SimOut σ) : Prop :=
   o.stop = .queueEmpty → ∀ stf, o.final = some stf → ∀ cl, stf.sq.pending cl = 0
 
-/-- the monitor returns no failure on an observed trace that is ordered and — when unfiltered —
-    satisfies the causality and the conservation predicate with the monitor's own "complete" flag -/
-theorem monitor_none_of {c : CaseIn} {r : ObsRun} {tr : List SimEvent} (hres : r.res = .ok tr)
-    (h1 : sortedByTime tr = true)
-    (h2 : (r.run.effArgs c.delay).onlyClientEvents = false → (r.run.effArgs c.delay).onlyNetworkActivity = false →
-      causality c.delay tr = true ∧
-      conservation (normalLines c.trace)
-        (((r.run.effArgs c.delay).maxTraceLength == 0 || decide (tr.length < (r.run.effArgs c.delay).maxTraceLength))
-          && ((r.run.effArgs c.delay).maxSimIterations == 0 || decide (tr.length < (r.run.effArgs c.delay).maxSimIterations)))
-        tr = true) :
-    C15.monitor c r = none := by
-  unfold C15.monitor
-  rw [hres]
-  simp only [h1, Bool.not_true, Bool.false_eq_true, if_false]
-  cases hoc : (r.run.effArgs c.delay).onlyClientEvents with
-  | true => simp
-  | false =>
-    cases hon : (r.run.effArgs c.delay).onlyNetworkActivity with
-    | true => simp
-    | false =>
-      obtain ⟨hc, hk⟩ := h2 hoc hon
-      simp only [Bool.or_self, Bool.false_eq_true, if_false, hc, Bool.not_true, hk]
-
 /-- **The C15 monitor accepts the model's own observation (partial).**  For every case (machine
     lists on both sides, raw input trace with all direction tokens, network delay), every run
     (`sim` or `sim_advanced`, any arguments, filters, caps, fractions, packets-per-second limit),
